@@ -7,7 +7,7 @@ import time
 from .facts import VERIF, AnalysisBroken
 
 KNOWN = os.path.join(VERIF, 'known_findings.txt')
-EVID = os.path.join(VERIF, 'evidence')
+EVID = os.environ.get('BLOCHSA_EVIDENCE_DIR') or os.path.join(VERIF, 'evidence')
 VIOL = os.path.join(EVID, 'violations')
 
 
